@@ -136,6 +136,13 @@ struct is_exact_multiple_of_smaller_simd<__svec<T,ABI>,N> {
                  >::type;
 };
 
+#ifdef FASTOR_VERIF
+// Verification hook: lets a verification harness admit its own scalar carrier types
+// to the vectorised code paths. The primary template is false, so nothing changes
+// unless a harness specialises it.
+template<typename T> struct verif_vectorisable { static constexpr bool value = false; };
+#endif
+
 template<class __svec, size_t N>
 struct choose_best_simd_type;
 template<template<typename, typename> class __svec, typename TT, typename ABI, size_t N>
@@ -176,6 +183,9 @@ struct choose_best_simd_type<__svec<TT,ABI>,N> {
 
     using type = typename std::conditional< std::is_same<T,float>::value                    ||
                                             std::is_same<T,double>::value                   ||
+#ifdef FASTOR_VERIF
+                                            verif_vectorisable<T>::value                    ||
+#endif
                                             std::is_same<T,std::complex<float>>::value      ||
                                             std::is_same<T,std::complex<double>>::value     ||
                                             std::is_same<T,int32_t>::value                  ||
